@@ -89,7 +89,7 @@ Inductive apc := ANone | ACl1 | ACl2 | ACl3 | ACl4 | ADone.
 Inductive wstate :=
 | KIdle
 | KBusy (j : nat) (k : jkind) (incall : bool) (done : bool)
-| KHandFal (j : nat) (k : jkind)           (* Data job: handler returned true, FAL about to be enqueued *)
+| KHandFal (j : nat) (k : jkind) (incall : bool)   (* Data job: handler returned true, FAL about to be enqueued (possibly from inside an adapter call) *)
 | KExited.
 
 Record shell := {
@@ -469,9 +469,9 @@ Definition step (s : shell) (th : thread) (a : action) : option shell :=
           | OReply _ | ONotif | OFal => Some (put s (ThWorker w) l)
           | _ => None
           end
-      | Some (KHandFal j k) =>
+      | Some (KHandFal j k ic) =>
           match l with
-          | OFal => Some (put (set_worker s w (KBusy j k false false)) (ThWorker w) OFal)
+          | OFal => Some (put (set_worker s w (KBusy j k ic false)) (ThWorker w) OFal)
           | _ => None
           end
       | _ => None
@@ -483,7 +483,7 @@ Definition step (s : shell) (th : thread) (a : action) : option shell :=
           else None
       | Some (KBusy j JData ic false), HRet r _ =>
           if Bool.eqb ret r then
-            Some (slog (set_worker s w (if ret then KHandFal j JData else KBusy j JData ic false)) [EHand (ThWorker w)])
+            Some (slog (set_worker s w (if ret then KHandFal j JData ic else KBusy j JData ic false)) [EHand (ThWorker w)])
           else None
       | _, _ => None
       end
